@@ -6,10 +6,10 @@ CFG = dict(
           "nobody is registered under is logged and routed to nobody), C05_route_take / C05_route_queue (whatever a call takes, has "
           "queued or held for it was read from the transport, routed to it and carries its id) and C05_noninterference_partial (a reply "
           "/ stream message reported to a call is the body of such an envelope) in coq/Props/C05.v, over all label sequences of "
-          "coq/Model/Client.v (any inbound envelopes, any interleaving). C05_route_exact: per call the routed envelopes are, in order and once each, the taken ones, then the queued one, then the held one, then the at most one dropped one (dropped = held while the call unregistered). C05_noninterference: EVERY API return of a call (unary result, RecvMsg messages and errors, Header, Trailer, SendMsg / CloseSend / NewStream errors) is justified by the envelopes the call itself took (its id, routed to it), by its OWN context, or by the connection-wide read failure. Server half (coq/Model/Server.v, Proofs/ServerRoute.v, over all label sequences): C05_server_route (per stream handler the envelopes read while it was the registered entry of its id - the sub-sequence of the inbox that is its own - are, in order and once each, those settled for it (queued or dropped because its context was done), then the one the read loop holds for it, then at most one abandoned at the end of the connection; the queued ones are, in order and once each, those it took, then the one still queued), C05_server_route_serving, C05_server_route_nobody, C05_server_unary_once (the unary requests read are, in order and once each, those handed to a worker - one job event each -, then the one on offer, then at most one abandoned).",
+          "coq/Model/Client.v (any inbound envelopes, any interleaving). C05_route_exact: per call the routed envelopes are, in order and once each, the taken ones, then the queued one, then the held one, then the at most one dropped one (dropped = held while the call unregistered). C05_recv_order / C05_wire_to_caller_order (Proofs/ClientOrder.v, invariant oinv): the ORDER of results, list level: in every reachable state the messages RecvMsg returned, in the order of the returns, are a prefix of the bodies (those that unmarshal, before the first final envelope) of the envelopes the call took - and of those the read loop read for it - in the transport's order; equal to them while the stream loop is reading empty-handed. C05_noninterference: EVERY API return of a call (unary result, RecvMsg messages and errors, Header, Trailer, SendMsg / CloseSend / NewStream errors) is justified by the envelopes the call itself took (its id, routed to it), by its OWN context, or by the connection-wide read failure. Server half (coq/Model/Server.v, Proofs/ServerRoute.v, over all label sequences): C05_server_route (per stream handler the envelopes read while it was the registered entry of its id - the sub-sequence of the inbox that is its own - are, in order and once each, those settled for it (queued or dropped because its context was done), then the one the read loop holds for it, then at most one abandoned at the end of the connection; the queued ones are, in order and once each, those it took, then the one still queued), C05_server_route_serving, C05_server_route_nobody, C05_server_unary_once (the unary requests read are, in order and once each, those handed to a worker - one job event each -, then the one on offer, then at most one abandoned).",
     props="Props/C05.v",
     theorems=["C05_unique", "C05_counter", "C05_wire", "C05_route_found", "C05_route_owner", "C05_route_take", "C05_route_queue",
-              "C05_route_exact", "C05_route_nobody", "C05_noninterference", "C05_noninterference_partial",
+              "C05_route_exact", "C05_recv_order", "C05_wire_to_caller_order", "C05_route_nobody", "C05_noninterference", "C05_noninterference_partial",
               "C05_server_route", "C05_server_route_serving", "C05_server_route_nobody", "C05_server_unary_once"],
     imports=["Model.Client", "Check.ClientC", "Check.ClientSpec", "Check.C05c"],
     case_type="c05case",
